@@ -521,9 +521,10 @@ def _twin():
     return bool(found)
 
 
-CONFIGS_QUICK = [{}, {"EPSILON": "0.01", "NUMERIC_PRECISION": "2"}]
+# EPSILON=0 asks for exact comparisons (a "value or default" reading of the setting would silently use the default instead)
+CONFIGS_QUICK = [{}, {"EPSILON": "0.01", "NUMERIC_PRECISION": "2"}, {"EPSILON": "0"}]
 CONFIGS_THOROUGH = [{}, {"EPSILON": "0.01", "NUMERIC_PRECISION": "2"}, {"EPSILON": "1e-9", "NUMERIC_PRECISION": "6"},
-                    {"EPSILON": "0.5", "NUMERIC_PRECISION": "0"}]
+                    {"EPSILON": "0.5", "NUMERIC_PRECISION": "0"}, {"EPSILON": "0"}, {"EPSILON": "0.0", "NUMERIC_PRECISION": "1"}]
 
 
 def main(tier):
